@@ -3,6 +3,17 @@
 REFLECT = "Go reflect / runtime semantics as specified in the model (DESIGN.md 3.4)"
 
 PROPS = {
+    "C14": {
+        "gens": ["AstWrites"],
+        "lean": "Anko.Props.C14",
+        "streams": [{"name": "isolation", "n_quick": 400, "n_thorough": 6000, "model": False, "race": True,
+                     "race_n_quick": 80, "race_n_thorough": 1200},
+                    {"name": "vm", "n_quick": 1500, "n_thorough": 20000}],
+        "trusted": ["go/types based extractor of writes to AST nodes / package-level variables (tools/cmd/extract/writes.go)",
+                    "Go race detector (implementation-side oracle, thorough and quick tiers)"],
+        "assumptions": ["hidden state inside host packages offered by import is outside the property",
+                        "writes through reflection or unsafe are not seen by the extractor; the reflection dump of the tree before/after every run covers them differentially"],
+    },
     "C02": {
         "gens": [],
         "lean": "Anko.Props.C02",
@@ -111,6 +122,17 @@ PROPS = {
 
 # Texts for MANIFEST.json (level_claimed.text, level_note, technique, design_ref)
 MANIFEST_TEXT = {
+    "C14": {
+        "text": "Machine-checked (Lean 4, `decide`) obligations over facts REGENERATED on every run by a go/types pass over vm/, env/ and the "
+                "lexer: the list of assignments / SetPosition calls targeting fields of AST nodes not allocated in the writing function is "
+                "empty, and the only package-level variables written outside init are the parser's two debug switches; in the model the "
+                "evaluator is a pure function of (tree, state). Search/oracle: every generated program is parsed once and executed 3 times "
+                "sequentially and from 8 goroutines at once in fresh environments - all runs must agree and a full reflection dump of the "
+                "tree (literals, CallExpr.Func, positions) must be unchanged - also under the Go race detector.",
+        "note": "Trusted: Lean kernel; the go/types extractor (syntactic notion of 'allocated in the same function'); the race detector.",
+        "technique": "Lean 4 `decide` over regenerated write-sets + differential re-execution and race detection",
+        "design_ref": "DESIGN.md section 6 (C14)",
+    },
     "C02": {
         "text": "Machine-checked proofs (Lean 4) over the interpreter model with an explicit context-poll counter: after the cancelled poll every "
                 "statement ends at once with the interrupt and changes nothing (no probe, binding or scope), no loop form iterates again, "
